@@ -143,6 +143,27 @@ def oracle(ctx):
             res.oracle_failures.append(dict(op='e2e', input=dict(roots=roots, files=files), impl_output=dict(exit=a['exit'], stderr=e2e.error_lines(a['stderr'])[:5]), oracle_expectation=f))
         shutil.rmtree(base, ignore_errors=True)
     res.samples.append(dict(kind='e2e-tree', roots=cases[0][1], files=cases[0][2]))
+    # "merged after the main file in name order" decides single-valued keys too, the naming keys included: the service is named by
+    # the last ServiceName= in merge order (main file, then drop-ins by name, whatever directory they are in), and a unit that refers
+    # to it depends on that name
+    import e2e as _e2e
+    ncases = []
+    for _ in range(60 if ctx.thorough else 16):
+        parts = []   # (file, name assigned or None)
+        main = rnd.choice([None, 'from-main'])
+        confs = [(cn, rnd.choice(['d0', 'd1']), rnd.choice([None, 'from-' + cn[:2]])) for cn in rnd.sample(['10-a.conf', '20-b.conf', '30-c.conf'], rnd.randint(1, 3))]
+        files = {'d0/v.volume': '[Volume]\n' + (f'ServiceName={main}\n' if main else ''), 'd1/r.container': '[Container]\nImage=localhost/i\nVolume=v.volume:/d\n'}
+        for cn, d, nm in confs:
+            files[f'{d}/v.volume.d/{cn}'] = '[Volume]\n' + (f'ServiceName={nm}\n' if nm else 'Label=x=y\n')
+        assigned = ([main] if main else []) + [nm for cn, d, nm in sorted(confs) if nm]
+        ncases.append((files, (assigned[-1] if assigned else 'v-volume')))
+    for (files, want), r in zip(ncases, _e2e.pmap(lambda c: _e2e.run_case(c[0], dirs=('d0', 'd1'), dry_run=True), ncases)):
+        res.oracle_evals += 1
+        names = {os.path.basename(k): v for k, v in r['printed'].items()}
+        req = re.findall(r'^Requires=(.*)$', names.get('r.service', ''), re.M)
+        if want + '.service' not in names or (want + '.service') not in req:
+            res.oracle_failures.append(dict(op='e2e', input=files, impl_output=dict(services=sorted(names), requires_of_r=req, exit=r['exit']),
+                                            oracle_expectation=f'the volume\'s service is {want}.service (the last ServiceName= in merge order, else the default) and r.service requires it'))
     # what is merged is every assignment of every surviving drop-in, after the main file, in name order — also an assignment that
     # repeats an older value (A, B, A; A, reset, A): histories of that shape cut into main file and drop-ins, through the real loader
     import filespell
